@@ -144,9 +144,13 @@ def run_case(case, acc):
     compare_da = prog and prog[0][0] == 'do_action' and harness.opnames(prog).count('do_action') == 1 and not has_early(prog)
     if case['fam'] == 'api':
         spec = [['group_by', 'div10', [['tap', 'h']] + prog + [['tap', 't']]]]
+        spec_hash = [['group_by', 'div10_hash', [['tap', 'h']] + prog + [['tap', 't']]]]
         reported = set()
-        for order in inputs(case['tier']):
-            for pattern in (0, 1):
+        runs = [(order, pattern, spec) for order in inputs(case['tier']) for pattern in (0, 1)]
+        # the same with group keys that are distinct but have equal hashes (-1 / -2, 5 / 5 + 2^61 - 1)
+        runs += [(order, 0, spec_hash) for order in ([0, 1, 0, 1, 1], [0, 1, 2, 3, 0, 2, 1, 3], [2, 3, 3, 2])]
+        for order, pattern, spec in runs:
+            if True:
                 items = items_of(order, pattern)
                 groups = {}
                 for x in items:
